@@ -399,6 +399,12 @@ func Violation(t fataler, test string, c any, f *Failure) {
 	}
 	st.mu.Unlock()
 	flush()
+	if f.Class == "hang" {
+		// a call that does not return: the stuck goroutine cannot be stopped, so neither shrinking (every
+		// attempt would wait for the limit again) nor the rest of the run is meaningful
+		fmt.Printf("VIOLATION %s/%s: %s (replay %s)\n", st.property, test, f.Error(), path)
+		os.Exit(1)
+	}
 	t.Fatalf("VIOLATION %s/%s: %s (replay %s)", st.property, test, f.Error(), path)
 }
 
